@@ -196,12 +196,16 @@ def run(spec):
             shadow.reverse()
         if rec is not None:
             added = 0
+            absn = set(cfg.get("absence", []))
             for s in rec.steps:
                 sn = s.ph.get("recorded")
                 if sn is not None:
-                    shadow.append(shadow_entry(sn, bool(s.working)))
+                    # a step is a working step iff its time is not in the absence list given to this call
+                    # (decided by the Director from the inputs, not taken from what pDESy passes to record())
+                    is_working = s.t not in absn
+                    shadow.append(shadow_entry(sn, is_working))
                     added += 1
-                    if not s.working:
+                    if not is_working:
                         res.count("absence_step_logged")
             res.steps += added
             if added:
